@@ -351,6 +351,88 @@ theorem floatMax_render (n : Num) (h : n.WF) (rest : List Char) (hr : CleanRest 
     rw [hl]; exact List.drop_left
   simp only [hdrop2, hel, hlen]
 
+/-! ### the typed value of a rendered number -/
+
+theorem signLen_app (s : List Char) (hs : isSign s) (r : List Char)
+    (hr : ∀ c ∈ r.head?, c ≠ '+' ∧ c ≠ '-') :
+    signLen (s ++ r) = s.length ∧ ((s ++ r).head? == some '-') = decide (s = ['-']) := by
+  rcases hs with rfl | rfl | rfl
+  · cases r with
+    | nil => simp [signLen]
+    | cons c cs =>
+      obtain ⟨h1, h2⟩ := hr c (by simp)
+      simp [signLen, h1, h2]
+  · simp [signLen]
+  · simp [signLen]
+
+theorem expValue_render (e : Option (Char × List Char × List Char))
+    (he : ∀ e' s d, e = some (e', s, d) → (e' = 'e' ∨ e' = 'E') ∧ isSign s ∧ d ≠ [] ∧ ∀ c ∈ d, isDecimal c = true) :
+    expValue (expStr e) = expInt e := by
+  cases e with
+  | none => rfl
+  | some x =>
+    obtain ⟨e', s, d⟩ := x
+    obtain ⟨_, h2, h3, h4⟩ := he e' s d rfl
+    have hd : ∀ c ∈ d.head?, c ≠ '+' ∧ c ≠ '-' := by
+      intro c hc
+      have hm : c ∈ d := by
+        cases d with
+        | nil => simp at hc
+        | cons d0 ds => simp at hc; subst hc; exact List.mem_cons_self
+      have := h4 c hm
+      constructor <;> (rintro rfl; exact absurd this (by decide))
+    obtain ⟨hl, hh⟩ := signLen_app s h2 d hd
+    have htw : d.takeWhile isDecimal = d := by
+      have := takeWhile_stop (b := []) h4 trivial
+      simpa using this
+    simp only [expStr, expValue, expInt, hl, hh, List.drop_left, htw]
+    by_cases hs : s = ['-'] <;> simp [hs]
+
+theorem numValue_render (n : Num) (h : n.WF) : numValue n.text = n.value := by
+  obtain ⟨hs, hint, hfrac, hne, hexp⟩ := h
+  obtain ⟨hst, hdot⟩ := expStr_stops n.exp hexp [] trivial
+  simp only [List.append_nil] at hst hdot
+  have hev := expValue_render n.exp hexp
+  -- sign
+  have hhead : ∀ c ∈ (n.int ++ (fracStr n.frac ++ expStr n.exp)).head?, c ≠ '+' ∧ c ≠ '-' := by
+    intro c hc
+    cases hi : n.int with
+    | cons i0 is =>
+      rw [hi] at hc
+      simp at hc; subst hc
+      have := hint i0 (by rw [hi]; exact List.mem_cons_self)
+      constructor <;> (rintro rfl; exact absurd this (by decide))
+    | nil =>
+      rcases hne with h | ⟨f, hf, _⟩
+      · exact absurd hi h
+      · rw [hi, hf] at hc
+        simp [fracStr] at hc; subst hc; decide
+  obtain ⟨hl, hh⟩ := signLen_app n.sign hs _ hhead
+  unfold numValue Num.value
+  rw [num_text_eq]
+  simp only [hl, hh, List.drop_left]
+  cases hf : n.frac with
+  | none =>
+    have hstop : Stops isDecimal (fracStr none ++ expStr n.exp) := by simpa [fracStr] using hst
+    simp only [takeWhile_stop hint hstop, dropWhile_stop hint hstop]
+    simp only [fracStr, List.nil_append]
+    have hnd : ∀ a, expStr n.exp ≠ '.' :: a := hdot
+    have : (match expStr n.exp with
+        | '.' :: a => (List.takeWhile isDecimal a, List.dropWhile isDecimal a)
+        | _ => ([], expStr n.exp)) = ([], expStr n.exp) := by
+      split
+      · rename_i a heq; exact absurd heq (hnd a)
+      · rfl
+    simp only [this, hev]
+    by_cases hsg : n.sign = ['-'] <;> simp [hsg]
+  | some f =>
+    have hfd := hfrac f hf
+    have hstop : Stops isDecimal (fracStr (some f) ++ expStr n.exp) := by
+      show isDecimal '.' = false; decide
+    simp only [takeWhile_stop hint hstop, dropWhile_stop hint hstop]
+    simp only [fracStr, List.cons_append, takeWhile_stop hfd hst, dropWhile_stop hfd hst, hev]
+    by_cases hsg : n.sign = ['-'] <;> simp [hsg]
+
 /-! ### the right-hand side -/
 
 theorem unitTail_nil : unitTail [] = none := by simp [unitTail]
@@ -365,14 +447,14 @@ theorem unitTail_unit {w u : List Char} (hw : ∀ c ∈ w, isSpace c = true) (hn
   have hemp : u.isEmpty = false := by simpa using hne
   simp [unitTail, dropWhile_stop hw hst, hall, hemp]
 
-theorem parseRhs_num (n : Num) (h : n.WF) : parseRhs true n.text = ⟨n.text, none⟩ := by
+theorem parseRhs_num (n : Num) (h : n.WF) : parseRhs true n.text = ⟨n.text, none, true⟩ := by
   have hm := floatMax_render n h [] trivial
   simp only [List.append_nil] at hm
   simp [parseRhs, hm, unitTail_nil]
 
 theorem parseRhs_num_unit (n : Num) (h : n.WF) {w u : List Char} (hwne : w ≠ [])
     (hw : ∀ c ∈ w, isSpace c = true) (hne : u ≠ []) (hu : ∀ c ∈ u, isUnitChar c = true) :
-    parseRhs true (n.text ++ (w ++ u)) = ⟨n.text, some u⟩ := by
+    parseRhs true (n.text ++ (w ++ u)) = ⟨n.text, some u, true⟩ := by
   have hclean : CleanRest (w ++ u) := by
     cases w with
     | nil => exact absurd rfl hwne
@@ -393,7 +475,7 @@ theorem numberLike_of_head {t : List Char}
     (h : ∀ c ∈ t.head?, (c ≠ '+' ∧ c ≠ '-' ∧ c ≠ '.' ∧ isDecimal c = false)) : numberLike t = false := by
   simp [numberLike, floatMax_text h]
 
-theorem parseRhs_text {t : List Char} (h : numberLike t = false) : parseRhs true t = ⟨t, none⟩ := by
+theorem parseRhs_text {t : List Char} (h : numberLike t = false) : parseRhs true t = ⟨t, none, false⟩ := by
   unfold numberLike at h
   cases hm : floatMax t with
   | none => simp [parseRhs, hm]
@@ -508,12 +590,21 @@ def Value.valueText : Value → List Char
   | .num n _ => n.text
   | .text t => t
 
+def Value.isNumber : Value → Bool
+  | .num _ _ => true
+  | .text _ => false
+
+/-- the typed value: the number the parts denote; a text has none -/
+def Value.numeric : Value → Option Dec10
+  | .num n _ => some n.value
+  | .text _ => none
+
 def Value.unitText : Value → Option (List Char)
   | .num _ (some (_, u)) => some u
   | .num _ none => none
   | .text _ => none
 
-theorem parseRhs_value (v : Value) (h : v.WF) : parseRhs true v.render = ⟨v.valueText, v.unitText⟩ := by
+theorem parseRhs_value (v : Value) (h : v.WF) : parseRhs true v.render = ⟨v.valueText, v.unitText, v.isNumber⟩ := by
   cases v with
   | text t => exact parseRhs_text h.2.2
   | num n unit =>
@@ -527,7 +618,7 @@ theorem parseRhs_value (v : Value) (h : v.WF) : parseRhs true v.render = ⟨v.va
 /-- `_parse_tag_operator_value` on a rendered well-formed condition -/
 theorem parseCond_render (ops : List (List Char)) (hops : OpsOK ops) (p : CondParts) (h : p.WF ops) :
     parseCond true ops p.render =
-      ⟨p.op, p.tag, p.value.render, some p.tag, some p.value.valueText, p.value.unitText, false⟩ := by
+      ⟨p.op, p.tag, p.value.render, some p.tag, some p.value.valueText, p.value.unitText, false, p.value.numeric⟩ := by
   obtain ⟨hop, htag, htagop, hs1, hs2, htr, hv⟩ := h
   obtain ⟨hvt, hvop⟩ := value_render_props p.value hv
   obtain ⟨hopne, hopch⟩ := hops.1 p.op hop
@@ -562,10 +653,20 @@ theorem parseCond_render (ops : List (List Char)) (hops : OpsOK ops) (p : CondPa
     have hr : strip (p.s2 ++ (p.value.render ++ p.trail)) = p.value.render := strip_mid hs2 hvt htr
     have htne : p.tag.isEmpty = false := by simpa using htag.1
     have hvne : p.value.render.isEmpty = false := by simpa using hvt.1
+    have hnum : (if p.value.isNumber = true then some (numValue p.value.valueText) else none) = p.value.numeric := by
+      cases hval : p.value with
+      | text t => rfl
+      | num n unit =>
+        have hn : n.WF := by
+          rw [hval] at hv
+          cases unit with
+          | none => exact hv
+          | some wu => exact hv.1
+        simp [Value.isNumber, Value.valueText, Value.numeric, numValue_render n hn]
     unfold parseCond
     rw [hfind]
     simp only [hsplit, hsplit2, Option.isSome_none, Bool.false_eq_true, ↓reduceIte, hl, hr, htne, hvne,
-      parseRhs_value p.value hv]
+      parseRhs_value p.value hv, hnum]
     simp [hopc]
 
 end OPM.ParseLine
